@@ -53,6 +53,7 @@ type scenario struct {
 	nextID   uint64
 	accepted, rejected int
 	stop     bool
+	maxDelivered int // longest packet any wrapped RTP reader has delivered so far
 }
 
 func run(c *vf.Case) {
@@ -309,7 +310,12 @@ func (s *scenario) probeRead(m *rig.Remote, phase string) {
 		return
 	}
 	s.c.Add("probes_rtp_read", 1)
-	if out.N > len(data) || out.N > bufSize {
+	s.maxDelivered = max(s.maxDelivered, len(data))
+	limit := len(data)
+	if s.kind == zoo.JitterBuffer {
+		limit = s.maxDelivered // it hands out an earlier packet, which may be longer than this one
+	}
+	if out.N > limit || out.N > bufSize {
 		s.c.Violation(fmt.Sprintf("n-too-large/%s/read-rtp", s.kind),
 			"interceptor %s: wrapped reader delivered %d bytes into a %d-byte buffer, Read returned n=%d (err=%v)",
 			s.b.Desc, len(data), bufSize, out.N, out.Err)
@@ -457,6 +463,10 @@ func (s *scenario) hostileRead(m *rig.Remote) {
 	delivered := min(len(data), bufSize)
 	if item.Err != nil {
 		delivered = 0
+	}
+	s.maxDelivered = max(s.maxDelivered, delivered)
+	if s.kind == zoo.JitterBuffer && item.Err == nil {
+		delivered = s.maxDelivered // it hands out an earlier packet, which may be longer than this one
 	}
 	if out.N > delivered || out.N > bufSize || out.N < 0 {
 		s.c.Violation(fmt.Sprintf("n-too-large/%s/read-rtp", s.kind),
